@@ -3,13 +3,15 @@
 # 1. confirms in a scratch worktree: suite passes with the patch, demo fails with it and passes without
 # 2. applies the patch to /repo, runs the given checks (quick), reverts /repo
 # 3. stores the mutation under /verif/seeded/<name>/ with meta.json
+# With ISO=1 in the environment step 2 runs a snapshot of /verif against the scratch worktree instead
+# (VERIF_DIR/VERIF_REPO), leaving /repo untouched - for use while other checks are binding /repo.
 set -u
 export GOFLAGS=-mod=mod GOPROXY=off GOSUMDB=off GOTOOLCHAIN=local
 M=$1; NAME=$2; shift 2; PROPS="$@"
 V=/verif
 WT=$(mktemp -d /tmp/seedwt-XXXXXX); rmdir $WT
 git -C /repo worktree add -q --detach $WT HEAD || exit 2
-cleanup() { git -C /repo worktree remove --force $WT 2>/dev/null; git -C /repo checkout -- . ; }
+cleanup() { git -C /repo worktree remove --force $WT 2>/dev/null; [ "${ISO:-0}" = 1 ] || git -C /repo checkout -- . ; }
 trap cleanup EXIT
 cd $WT
 demo=$(ls $M/demo*_test.go 2>/dev/null | head -1)
@@ -26,14 +28,24 @@ fi
 if go test -vet=off -count=1 ./... >/tmp/seed_suite.log 2>&1; then suite=pass; else suite=FAIL; fi
 echo "suite-with-patch=$suite demo-without=$res_without demo-with=$res_with"
 cd $V
-git -C /repo apply $M/patch.diff || exit 2
+RUNV=$V
+if [ "${ISO:-0}" = 1 ]; then
+  RUNV=$(mktemp -d /var/tmp/seed-verif-XXXXXX)
+  rsync -a --exclude .git --exclude replays --exclude evidence $V/ $RUNV/
+  mkdir -p $RUNV/evidence $RUNV/replays
+  sed -i "s|=> /repo\$|=> $WT|" $RUNV/go.mod
+  export VERIF_DIR=$RUNV VERIF_REPO=$WT
+  trap 'cleanup; rm -rf $RUNV' EXIT
+else
+  git -C /repo apply $M/patch.diff || exit 2
+fi
 declare -A R
 for p in $PROPS; do
-  out=$(./bin/vcheck $p --tier quick 2>&1); code=$?
+  out=$(cd $RUNV && ./bin/vcheck $p --tier quick 2>&1); code=$?
   R[$p]=$code
   echo "--- $p exit=$code"; echo "$out" | grep -E "^VIOLATION|signature|HARNESS|KNOWN|RESULT" | head -8
 done
-git -C /repo checkout -- .
+[ "${ISO:-0}" = 1 ] || git -C /repo checkout -- .
 mkdir -p $V/seeded/$NAME
 cp $M/patch.diff $V/seeded/$NAME/patch.diff
 [ -n "$demo" ] && cp $demo $V/seeded/$NAME/demo_test.go.txt
